@@ -182,30 +182,38 @@ def regionIdx : List Nat → List RPart → Except Reject (List (List Nat))
     .ok (l :: ls)
   | _, _ => .error .reject
 
-/-- `_set_subtensor(key, value)` for zero and scalar right-hand sides. -/
-def setSubtensorScalar [Zero α] [BEq α] (S : Sparse α) (parts : List RPart) (v : α) :
-    Except Reject (Sparse α) := do
-  let shape' ← newSizeScalar S.shape parts
+/-- `_set_subtensor(key, value)` for zero and scalar right-hand sides, after the new size
+`shape'` and the index lists `idx` of the key are known: the stored subscripts are padded
+with zero columns for new modes; zero deletes what occupies the region; a non-zero scalar
+overwrites the stored entries of the region and appends the missing ones. -/
+def regionScalarApply [Zero α] [BEq α] (S : Sparse α) (shape' : List Nat) (idx : List (List Nat)) (v : α) :
+    Sparse α :=
   let subs' := if S.subs.isEmpty then S.subs else padSubs S.subs shape'.length
   let S' : Sparse α := ⟨shape', subs', S.vals⟩
-  let idx ← regionIdx shape' parts
   if v == 0 then
     -- delete what occupies the region
     let rmloc := if subs'.isEmpty then [] else S'.subdims idx
     let kploc := setdiff1d (List.range subs'.length) rmloc
-    .ok (S'.takeAt kploc)
+    S'.takeAt kploc
   else
     -- every subscript of the region, first mode slowest (the Khatri-Rao construction)
     let addsubs := outerC idx
     if subs'.isEmpty then
       -- nothing stored: the distinct region subscripts, in order of first occurrence
       let fresh := addsubs.eraseDups
-      .ok ⟨shape', fresh, fresh.map fun _ => v⟩
+      ⟨shape', fresh, fresh.map fun _ => v⟩
     else
       let loc := intersectRows (toIntRows subs') (toIntRows addsubs)
       let vals' := scatter1 S.vals (loc.map fun k => (k, v))
       let fresh := (setdiffRows (toIntRows addsubs) (toIntRows subs')).map fun k => addsubs.getD k []
-      .ok ⟨shape', subs' ++ fresh, vals' ++ fresh.map fun _ => v⟩
+      ⟨shape', subs' ++ fresh, vals' ++ fresh.map fun _ => v⟩
+
+/-- `_set_subtensor(key, value)` for zero and scalar right-hand sides. -/
+def setSubtensorScalar [Zero α] [BEq α] (S : Sparse α) (parts : List RPart) (v : α) :
+    Except Reject (Sparse α) := do
+  let shape' ← newSizeScalar S.shape parts
+  let idx ← regionIdx shape' parts
+  .ok (regionScalarApply S shape' idx v)
 
 /-- `tt_irenumber(value, shape, key)` for one stored subscript of the value: walk the
 key; a slice / list maps the next value coordinate through its index list, an integer
@@ -313,6 +321,40 @@ def renumberCoord (l : List Nat) (isInt : Bool) (x : Nat) : Nat :=
     | some k => l.length - 1 - k
     | none => 0
 
+/-- A (rewritten) key element is an integer. -/
+def _root_.Pyttb.RPart.isInt : RPart → Bool
+  | .int _ => true
+  | _ => false
+
+/-- `__getitem__`, Case 1 after the key was rewritten (`parts'`) and turned into index
+lists (`idx`): `subdims` selects the stored entries, `tt_renumber` renumbers them, integer
+modes are dropped; with nothing kept the stored value (or 0) comes back as a scalar. -/
+def regionRead [Zero α] (S : Sparse α) (parts' : List RPart) (idx : List (List Nat)) :
+    Except Reject (SpReadOut α) :=
+  let n := S.shape.length
+  let loc := if S.subs.isEmpty then [] else S.subdims idx
+  let sel := S.takeAt loc
+  let isInt (d : Nat) : Bool := (parts'.getD d (.int 0)).isInt
+  let isAll (d : Nat) : Bool := match parts'.getD d (.int 0) with | .slice none none none => true | _ => false
+  -- tt_renumber: building the index map of a list fails for an entry beyond the extent
+  if !sel.subs.isEmpty ∧ (List.range n).any (fun d => match parts'.getD d (.int 0) with
+      | .list is => is.any (· ≥ S.shape.getD d 0) | _ => false) then .error .reject
+  else
+    let kp := (List.range n).filter fun d => !isInt d
+    if kp.isEmpty then
+      match sel.vals with
+      | [] => .ok (.scalar 0)
+      | [v] => .ok (.scalar v)
+      | vs => .ok (.vec vs)
+    else
+      let newshape := kp.map fun d => if isAll d then S.shape.getD d 0 else (idx.getD d []).length
+      if sel.subs.isEmpty then
+        if newshape.any (· == 0) then .error .reject else .ok (.tensor ⟨newshape, [], []⟩)
+      else
+        let subs := sel.subs.map fun r => kp.map fun d =>
+          if isAll d then r.getD d 0 else renumberCoord (idx.getD d []) false (r.getD d 0)
+        .ok (.tensor ⟨newshape, subs, sel.vals⟩)
+
 /-- `sptensor.__getitem__`. -/
 def getItem [Zero α] [BEq α] (S : Sparse α) (key : Key) : Except Reject (SpReadOut α) :=
   let n := S.shape.length
@@ -322,27 +364,7 @@ def getItem [Zero α] [BEq α] (S : Sparse α) (key : Key) : Except Reject (SpRe
     else do
       let parts' ← rewriteNeg S.shape parts
       let idx ← regionIdx S.shape parts'
-      let loc := if S.subs.isEmpty then [] else S.subdims idx
-      let sel := S.takeAt loc
-      let isInt (d : Nat) : Bool := match parts'.getD d (.int 0) with | .int _ => true | _ => false
-      let isAll (d : Nat) : Bool := match parts'.getD d (.int 0) with | .slice none none none => true | _ => false
-      -- tt_renumber: building the index map of a list fails for an entry beyond the extent
-      if !sel.subs.isEmpty ∧ (List.range n).any (fun d => match parts'.getD d (.int 0) with
-          | .list is => is.any (· ≥ S.shape.getD d 0) | _ => false) then .error .reject
-      let kp := (List.range n).filter fun d => !isInt d
-      if kp.isEmpty then
-        match sel.vals with
-        | [] => .ok (.scalar 0)
-        | [v] => .ok (.scalar v)
-        | vs => .ok (.vec vs)
-      else
-        let newshape := kp.map fun d => if isAll d then S.shape.getD d 0 else (idx.getD d []).length
-        if sel.subs.isEmpty then
-          if newshape.any (· == 0) then .error .reject else .ok (.tensor ⟨newshape, [], []⟩)
-        else
-          let subs := sel.subs.map fun r => kp.map fun d =>
-            if isAll d then r.getD d 0 else renumberCoord (idx.getD d []) false (r.getD d 0)
-          .ok (.tensor ⟨newshape, subs, sel.vals⟩)
+      S.regionRead parts' idx
   | .subs rows =>
     if rows.isEmpty then .error .reject
     else do
